@@ -210,6 +210,50 @@ def padding_invariance(rep, prog, tier):
     return n
 
 
+def documented_payload(rep, prog):
+    """C05.documented-payload: a generator whose docstring says that the number passed should not include the check digit(s) computes
+    from every character it is given: neither it nor a generator it hands its whole parameter to may cut trailing characters off
+    (`number[:-1]`), otherwise the check character of a payload passed as documented is computed from a truncated payload."""
+    n_ = 0
+
+    def trailing_cut(fn, par):
+        for x in ast.walk(fn):
+            if isinstance(x, ast.Subscript) and isinstance(x.value, ast.Name) and x.value.id == par and isinstance(x.slice, ast.Slice) \
+                    and x.slice.lower is None and isinstance(x.slice.upper, ast.UnaryOp) and isinstance(x.slice.upper.op, ast.USub):
+                return x
+        return None
+    for mn in prog.number_modules():
+        m = prog.mods[mn]
+        for g, fn in sorted(m.funcs.items()):
+            if not GEN.match(g) or not fn.args.args:
+                continue
+            doc = ' '.join((ast.get_docstring(fn) or '').split())
+            if 'should not have the check digit' not in doc and 'without the check digit' not in doc:
+                continue
+            n_ += 1
+            par = fn.args.args[0].arg
+            cut = trailing_cut(fn, par)
+            where = (mn, g)
+            if cut is None:
+                # delegation of the whole parameter to another generator
+                for c in ast.walk(fn):
+                    if isinstance(c, ast.Call) and c.args and isinstance(c.args[0], ast.Name) and c.args[0].id == par:
+                        r = prog.resolve_expr(m, c.func)
+                        if r and r[0] == 'func' and GEN.match(r[2]) and (r[1], r[2]) != (mn, g):
+                            dfn = prog.mods[r[1]].funcs[r[2]]
+                            if dfn.args.args:
+                                cut = trailing_cut(dfn, dfn.args.args[0].arg)
+                                if cut is not None:
+                                    where = (r[1], r[2])
+                                    break
+            rep.check(cut is None, 'C05.documented-payload', rel(m.path), g, 'def %s' % g, fn.lineno,
+                      '%s.%s() is documented to take the number without its check digit, but %s.%s() drops the last character(s) of what it is given (%s): '
+                      'for a payload passed as documented the check character is computed from a truncated payload and the completed number is rejected'
+                      % (mn.replace('stdnum.', ''), g, where[0].replace('stdnum.', ''), where[1], src(cut) if cut is not None else ''),
+                      what='%s.%s uses every character of the documented payload' % (mn.replace('stdnum.', ''), g))
+    return n_
+
+
 def check(tier):
     rep = Report('C05', tier, level='other',
                  rule_text='call-graph rule (validator reaches the generator), compare-and-raise shape of every generator use on the validation '
@@ -343,8 +387,10 @@ def check(tier):
     rep.discharged += gen_total - len([f for f in bad if f.rule == 'ALG.GEN'])
     rep.counts['C05.generic'] = gen_total
     rep.unit('modules with a public generator', nmods + 8)
+    rep.unit('generators with a documented payload convention', documented_payload(rep, prog))
     rep.expect_at_least('C05.wired', 85, 'generators reached from validate()')
     rep.expect_at_least('C05.compare', 85, 'compare-and-raise sites')
+    rep.expect_at_least('C05.documented-payload', 8, 'generators whose docstring states the payload convention')
     rep.not_decided = ['arithmetic equality of generator and validator where validate() applies checksum(number) == constant instead of the generator',
                        'frozen un-gated returns: ' + '; '.join('%s (%s)' % kv for kv in UNGATED.items())]
     return rep.finish()
